@@ -877,3 +877,122 @@ V('C15', 'event-dest-any-block', BLK, "        simulator.get_circuit().resolve_n
 V('C15', 'unfinalize', SIM, "    def is_finalized(self) -> bool:\n        \"\"\"Return True only if finalize() was called.\"\"\"\n        return self._finalized\n", "    def is_finalized(self) -> bool:\n        \"\"\"Return True only if finalize() was called.\"\"\"\n        return self._finalized\n\n    def unfreeze(self) -> None:\n        self._finalized = False\n", 'R15.1')
 E('C15', 'resolve-after-connect', SIM, "            self._resolver.resolve()\n            self._finalize()\n            self._finalized = True\n", "            self._finalize()\n            self._resolver.resolve()\n            self._finalized = True\n")
 E('C15', 'gate-alias', BLK, "        self.circuit.check_not_finalized()\n        if self.inputs:\n", "        circuit = self.circuit\n        circuit.check_not_finalized()\n        if self.inputs:\n")
+
+# ----------------------------------------------------------------------------- C03
+V('C03', 'f3-reverted', FSM, """                    etype, data, newstate = self._next_event
+                    self._next_event = None
+                    # from now on the actions are caused by the chained event
+                    fsm_event_data.set(
+                        types.MappingProxyType(data) if isinstance(data, MutableMapping) else data)
+                    self._run_cb('exit', self._state)
+""", """                    self._run_cb('exit', self._state)
+                    etype, data, newstate = self._next_event
+                    self._next_event = None
+""", 'R03.6')
+V('C03', 'stop-timer-first', FSM, """                self._run_cb('exit', self._state)
+                self._send_events('on_exit')
+                self._stop_timer()
+""", """                self._stop_timer()
+                self._run_cb('exit', self._state)
+                self._send_events('on_exit')
+""", 'R03.1')
+V('C03', 'on-enter-before-output', FSM, """            output = self.calc_output()
+            if output is not block.UNDEF:
+                self.set_output(output)
+            self._send_events('on_enter')
+            return True""", """            self._send_events('on_enter')
+            output = self.calc_output()
+            if output is not block.UNDEF:
+                self.set_output(output)
+            return True""", 'R03.1')
+V('C03', 'output-before-enter', FSM, """                self._state = newstate
+                with self._enable_event:        # type: ignore[attr-defined]
+                    self._run_cb('enter', self._state)
+""", """                self._state = newstate
+                if (out := self.calc_output()) is not block.UNDEF:
+                    self.set_output(out)
+                with self._enable_event:        # type: ignore[attr-defined]
+                    self._run_cb('enter', self._state)
+""", 'R03.1')
+V('C03', 'intermediate-exit-skipped', FSM, """                        types.MappingProxyType(data) if isinstance(data, MutableMapping) else data)
+                    self._run_cb('exit', self._state)
+""", """                        types.MappingProxyType(data) if isinstance(data, MutableMapping) else data)
+""", None, note='allowed by X? in the language - property says its exit action runs; see R03.1b')
+V('C03', 'notrans-on-cond', FSM, """                self.log_debug(
+                    "not executing event %s (%s -> %s), condition not satisfied",
+                    etype, self._state, newstate)
+                return False
+""", """                self.log_debug(
+                    "not executing event %s (%s -> %s), condition not satisfied",
+                    etype, self._state, newstate)
+                for event in self._on_notrans:
+                    event.send(self, trigger='notrans', event=etype, state=self._state)
+                return False
+""", 'R03.2')
+V('C03', 'state-written-on-reject', FSM, """            if self.is_initialized() and not all(self._run_cb('cond', etype)):
+""", """            self._prev_state, self._state = self._state, self._state
+            if self.is_initialized() and not all(self._run_cb('cond', etype)):
+""", 'R03.2')
+V('C03', 'anystate-first', FSM, """            try:
+                newstate = self._ct_transition[(etype, self._state)]
+            except KeyError:
+                newstate = self._ct_transition.get((etype, None), None)
+""", """            try:
+                newstate = self._ct_transition[(etype, None)]
+            except KeyError:
+                newstate = self._ct_transition.get((etype, self._state), None)
+""", 'R03.3')
+V('C03', 'cond-any', FSM, "not all(self._run_cb('cond', etype))", "not any(self._run_cb('cond', etype))", 'R03.4')
+V('C03', 'cond-uninitialised', FSM, "            if self.is_initialized() and not all(self._run_cb('cond', etype)):", "            if not all(self._run_cb('cond', etype)):", 'R03.4')
+V('C03', 'goto-checks-cond', FSM, """            newstate = etype.state
+            self._check_state(newstate)
+        else:""", """            newstate = etype.state
+            self._check_state(newstate)
+            if self.is_initialized() and not all(self._run_cb('cond', 'goto')):
+                return False
+        else:""", 'R03.3')
+V('C03', 'unbounded-chain', FSM, "            for _ in range(self._ct_chainlimit):\n", "            for _ in iter(int, 1):\n", 'R03.5')
+V('C03', 'runcb-method-only-if-no-function', FSM, """        else:
+            retvals.append(cb())
+        cls_cb = self._ct_methods[cb_type]
+        try:
+            cb = cls_cb[name]
+        except KeyError:
+            pass
+        else:
+            # cb is an unbound method
+            retvals.append(cb(self))
+        return retvals""", """        else:
+            retvals.append(cb())
+            return retvals
+        cls_cb = self._ct_methods[cb_type]
+        try:
+            cb = cls_cb[name]
+        except KeyError:
+            pass
+        else:
+            # cb is an unbound method
+            retvals.append(cb(self))
+        return retvals""", 'R03.4')
+V('C03', 'accepted-returns-none', FSM, "            self._next_event = (etype, data, newstate)\n            return True\n", "            self._next_event = (etype, data, newstate)\n            return None\n", 'R03.2')
+V('C03', 'data-mutable', FSM, "            rodata = types.MappingProxyType(data)\n", "            rodata = data\n", 'R03.6')
+V('C03', 'no-context-copy', FSM, "        return contextvars.copy_context().run(self._ctx_event, etype, data)", "        return self._ctx_event(etype, data)", 'R03.6')
+V('C03', 'on-exit-state-new', FSM, """        state_events = self._state_events[trigger_type]
+        state = self._state
+""", """        state_events = self._state_events[trigger_type]
+        state = self._state if trigger_type == 'on_enter' else None
+""", 'R03.1')
+E('C03', 'ifkey-lookup', FSM, """            try:
+                newstate = self._ct_transition[(etype, self._state)]
+            except KeyError:
+                newstate = self._ct_transition.get((etype, None), None)
+""", """            if (etype, self._state) in self._ct_transition:
+                newstate = self._ct_transition[(etype, self._state)]
+            else:
+                newstate = self._ct_transition.get((etype, None), None)
+""")
+E('C03', 'set-via-local', FSM, """                    fsm_event_data.set(
+                        types.MappingProxyType(data) if isinstance(data, MutableMapping) else data)
+""", """                    ro = types.MappingProxyType(data) if isinstance(data, MutableMapping) else data
+                    fsm_event_data.set(ro)
+""")
